@@ -98,3 +98,10 @@ package planner
 //@   ensures r ==> called(hasInCondition, 1) && !res(hasInCondition, 1, 0) && called(CanBeOrderedByIndex, 1) && res(CanBeOrderedByIndex, 1, 0)
 //@   assert before call#1 hasInCondition: arg0 == scan.filter && !scan.showDeleted
 //@   tags C08 C07
+//@
+//@ // ===== C08 (no request makes the node panic): the signature of a commit is added to the row only when the
+//@ // request selected the signature field: the signature block is fetched (and the field's mapping indexed) only
+//@ // after the mapping was found to have an entry for that field
+//@ func (*dagScanNode).addSignatureFieldToDoc -> (err)
+//@   assert before call#1 CtxMustGetTxn: len(mapget(n.commitSelect.Select.DocumentMapping.IndexesByName, request.SignatureFieldName)) != 0
+//@   tags C08 C12
